@@ -250,18 +250,21 @@ func runC14(c *Ctx) {
 		if tagCall != nil {
 			entry := tagCall.Call.Value
 			kept := false
-			EachInstr(fn, func(in ssa.Instruction) {
-				if sel, ok := in.(*ssa.Select); ok {
-					for _, st := range sel.States {
-						if st.Send != nil && sameRoots(st.Send, entry) && HasBoolFact(BoolFactsAt(sel), func(v ssa.Value) bool { return v == ssa.Value(cl) }, true) {
-							kept = true
+			// the function and the helpers of its package that do the delivery (p.sendAmmo(ctx, ammo))
+			for _, g := range FindFuncs(fn, 2, func(g *ssa.Function) bool { return PkgOf(g) == PkgOf(fn) }) {
+				EachInstr(g, func(in ssa.Instruction) {
+					if sel, ok := in.(*ssa.Select); ok {
+						for _, st := range sel.States {
+							if st.Send != nil && sameRoots(st.Send, entry) && HasBoolFact(BoolFactsAt(sel), func(v ssa.Value) bool { return v == ssa.Value(cl) }, true) {
+								kept = true
+							}
 						}
 					}
-				}
-				if IsBuiltinCall(in, "append") && HasBoolFact(BoolFactsAt(in), func(v ssa.Value) bool { return v == ssa.Value(cl) }, true) {
-					kept = true
-				}
-			})
+					if IsBuiltinCall(in, "append") && HasBoolFact(BoolFactsAt(in), func(v ssa.Value) bool { return v == ssa.Value(cl) }, true) {
+						kept = true
+					}
+				})
+			}
 			c.Check(kept, "O14.3", fk(fn)+":only-chosen-entries-kept", cl.Pos(), "the entry is delivered/kept only on the true edge of IsChosenCase for that same entry")
 		}
 	}
